@@ -1340,11 +1340,17 @@ class Authenticated(BaseClientHandler):
                 # Do an EXPUNGE if there are any messages marked 'Delete'
                 #
                 if self.mbox.sequences.get("Deleted", []):
-                    uid_msg_set = (
-                        list(cmd.msg_set_as_set)
-                        if cmd.uid_command and cmd.msg_set_as_set
-                        else None
-                    )
+                    # `msg_set_as_set` holds message sequence numbers (the
+                    # management task resolved the UID set for us); expunge()
+                    # wants UIDs. A UID EXPUNGE whose set names no existing
+                    # message restricts the expunge to nothing.
+                    #
+                    uid_msg_set: list[int] | None = None
+                    if cmd.uid_command:
+                        uid_msg_set = [
+                            self.mbox.uids[x - 1]
+                            for x in sorted(cmd.msg_set_as_set or ())
+                        ]
                     await self.mbox.expunge(uid_msg_set=uid_msg_set)
         finally:
             self.idling = idling
